@@ -93,12 +93,38 @@ ReadInter(H, rows, i) ==
                  IF lb < s THEN ReadInter(Add(H, u, v, lb, s).g, rows, i + 1) ELSE ReadInter(H, rows, i + 1)
 
 (***************************************************************************)
+(* JSON node-link data: node list with attributes, one link per interaction *)
+(* and instant; node_link_graph adds the nodes, then the links as point     *)
+(* adds in file order; the directed argument decides only without the key   *)
+(***************************************************************************)
+NodeLinkDataOf(g) ==
+  [directed |-> g.dir,
+   nodes    |-> SetToSeq({ <<n, IF n \in DOMAIN g.attr THEN g.attr[n] ELSE 0>> : n \in g.nodes }),
+   links    |-> SnapshotRows(g)]
+NodeLinkGraphOf(d, haskey, argdir) ==
+  LET dir  == IF haskey THEN d.directed ELSE argdir
+      ns   == { x[1] : x \in ToSet(d.nodes) }
+      at   == [n \in { x[1] : x \in { y \in ToSet(d.nodes) : y[2] # 0 } } |->
+                 (CHOOSE x \in ToSet(d.nodes) : x[1] = n)[2]]
+      base == [EmptyG(dir, TRUE) EXCEPT !.nodes = ns, !.attr = at]
+  IN FoldAdds(base, [i \in DOMAIN d.links |-> <<d.links[i][1], d.links[i][2], d.links[i][3], NoEnd>>], 1)
+(***************************************************************************)
 (* the logged-line shape of module Derived, built from the model            *)
 (***************************************************************************)
 LineOf(kind, g, r, extra) ==
   [kind |-> kind, res |-> r.res, hdir |-> r.g.dir,
    hcls |-> IF r.g.dir THEN "DynDiGraph" ELSE "DynGraph",
    src |-> ObsOf(g), src2 |-> ObsOf(g), obs |-> ObsOf(r.g), q |-> <<>>] @@ extra
+
+JsonLine(g, haskey, argdir) ==
+  LET d  == NodeLinkDataOf(g)
+      r  == NodeLinkGraphOf(d, haskey, argdir)
+      dg(gr) == SetToSeq({ <<n, IF n \in DOMAIN gr.attr THEN gr.attr[n] ELSE 0>> : n \in gr.nodes })
+  IN LineOf("json", g, r,
+            [rows |-> d.links, rowerr |-> <<>>, dumps |-> "ok", ddirok |-> TRUE, ddir |-> d.directed,
+             dnodes |-> [i \in DOMAIN d.nodes |-> <<d.nodes[i][1], d.nodes[i][2], d.nodes[i][2]>>],
+             gdig |-> dg(g), hdig |-> dg(r.g), ggraph |-> 0, dgraph |-> 0, hgraph |-> 0,
+             haskey |-> haskey, argdir |-> argdir])
 
 NoFail(tab) == \A x \in tab : x[2] # "fail"
 
@@ -133,4 +159,9 @@ InvInteractionsRoundTrip ==
     NoFail(DeriveTable(R, T, ObsOf(G),
                        LineOf("interactions", G, ReadInter(EmptyG(G.dir, TRUE), InteractionRows(G), 1),
                               [rows |-> InteractionRows(G), rowerr |-> <<>>])))
+InvJsonRoundTrip ==
+  G.rem =>
+    \A haskey \in BOOLEAN : \A argdir \in BOOLEAN :
+      \* reading directed data as undirected is outside the property (DESIGN.md section 7)
+      (haskey \/ argdir \/ ~G.dir) => NoFail(DeriveTable(R, T, ObsOf(G), JsonLine(G, haskey, argdir)))
 ==============================================================================
